@@ -7,8 +7,13 @@ every value, the set of SOURCE LINES the value depends on.
 Fragment: ints/bools; + - * % and comparisons; not/and/or; if/elif/else; counter-bounded `while`;
 `for i in range(e)`; break/continue; locals; one module global `G` (read, and written through `global G`);
 attribute get/set on objects of the module's class `Box` (constructor assigns the fields; small methods);
-list literal / index / append / subscript store; calls to helper functions and methods of the same module
+list literal / index / append / subscript store; containers nested in containers (a list variable as element of a
+list literal or as value of a dict literal with constant string keys), aliases of containers (`l2 = l1`, `l3 = n1[0]`),
+nested subscript read `n1[i][j]` and nested subscript store `n1[i][j] = e`, replacement of a nested container
+(`n1[i] = l2`); calls to helper functions and methods of the same module
 (params, locals, ifs, early returns, return an expression); entry `f(a, b)` returns a variable.
+Containers are objects with identity (`Lst`): every path to a container (variable, alias, element of another container)
+reaches the same element cells, each cell carrying the provenance of its last store.
 
 Dependences recorded (only those that are certain under the textbook definition of dynamic data / control
 dependence, so the oracle UNDER-approximates):
@@ -78,6 +83,7 @@ def And(l, r): return N("and", l, r)
 def Or(l, r): return N("or", l, r)
 def Attr(o, f): return N("attr", o, f)
 def Idx(l, i): return N("idx", l, i)
+def Idx2(l, i, j): return N("idx2", l, i, j)  # l[i][j]
 def Call(fn, *args): return N("call", fn, list(args))
 def MCall(o, m, *args): return N("mcall", o, m, list(args))
 
@@ -92,6 +98,8 @@ def New(n, *args): return N("new", n, list(args))
 def LNew(n, *elems): return N("lnew", n, list(elems))
 def LApp(n, e): return N("lapp", n, e)
 def LSet(n, i, e): return N("lset", n, i, e)
+def LSet2(n, i, j, e): return N("lset2", n, i, j, e)  # n[i][j] = e
+def DNew(n, *pairs): return N("dnew", n, list(pairs))  # n = {"k": e, ...}
 def If(c, body, orelse=(), elif_=False): return N("if", c, list(body), list(orelse), elif_)
 def While(c, body): return N("while", c, list(body))
 def For(v, n, body): return N("for", v, n, list(body))
@@ -131,6 +139,8 @@ def rx(e):
         return f"{e.a[0]}.{e.a[1]}"
     if k == "idx":
         return f"{e.a[0]}[{rx(e.a[1])}]"
+    if k == "idx2":
+        return f"{e.a[0]}[{rx(e.a[1])}][{rx(e.a[2])}]"
     if k == "call":
         return f"{e.a[0]}({', '.join(rx(x) for x in e.a[1])})"
     if k == "mcall":
@@ -138,9 +148,18 @@ def rx(e):
     raise ValueError(k)
 
 
+def _reads_nested(e):
+    """Does the expression (or any statement operand) contain a nested subscript read?"""
+    if isinstance(e, N):
+        return e.k == "idx2" or any(_reads_nested(x) for x in e.a)
+    if isinstance(e, (list, tuple)):
+        return any(_reads_nested(x) for x in e)
+    return False
+
+
 TAG = {"assign": "local-assign", "aug": "local-assign", "gset": "global-store", "gaug": "global-store", "aset": "attribute-store",
        "aaug": "attribute-store", "new": "object-creation", "lnew": "list-literal", "lapp": "list-append", "lset": "subscript-store",
-       "while": "while", "for": "for", "ret": "return", "expr": "call-stmt", "break": "break", "continue": "continue"}
+       "lset2": "subscript-store", "dnew": "dict-literal", "while": "while", "for": "for", "ret": "return", "expr": "call-stmt", "break": "break", "continue": "continue"}
 
 
 class Prog:
@@ -153,6 +172,7 @@ class Prog:
         self.funcs[entry.name] = entry
         self.mfuncs = {m.name: m for m in self.methods}
         self.tag: dict[int, str] = {}
+        self.feat: dict[int, set[str]] = {}  # static features of a line (mechanism keys), e.g. "nested-subscript-read"
         self.text: list[str] = []
         self.constructs: set[str] = set()
         self._render()
@@ -166,6 +186,12 @@ class Prog:
         if tag is not None:
             self.tag[ln] = tag
             self.constructs.add(tag)
+        if node is not None and node.k not in ("if", "while", "for") and _reads_nested([x for x in node.a]):
+            self.feat.setdefault(ln, set()).add("nested-subscript-read")
+        elif node is not None and node.k in ("if", "while") and _reads_nested(node.a[0]):
+            self.feat.setdefault(ln, set()).add("nested-subscript-read")
+        elif node is not None and node.k == "for" and _reads_nested(node.a[1]):
+            self.feat.setdefault(ln, set()).add("nested-subscript-read")
         return ln
 
     def _block(self, body, ind, where):
@@ -196,6 +222,10 @@ class Prog:
                 self._emit(ind, f"{s.a[0]}.append({rx(s.a[1])})", s, t)
             elif k == "lset":
                 self._emit(ind, f"{s.a[0]}[{rx(s.a[1])}] = {rx(s.a[2])}", s, t)
+            elif k == "lset2":
+                self._emit(ind, f"{s.a[0]}[{rx(s.a[1])}][{rx(s.a[2])}] = {rx(s.a[3])}", s, t)
+            elif k == "dnew":
+                self._emit(ind, f"{s.a[0]} = {{{', '.join(f'{key!r}: {rx(x)}' for key, x in s.a[1])}}}", s, t)
             elif k == "if":
                 self._if(s, ind, where, "if")
             elif k == "while":
@@ -252,10 +282,13 @@ class Prog:
 
 # ------------------------------------------------------------------------------------------------ interpreter
 class Val:
-    __slots__ = ("v", "prov", "src")
+    """A value with its provenance.  For a cell of a container additionally: `t` the time (statement count) of the store
+    that filled the cell, `via` how it was filled ("lit" literal, "var" `name[i] = e`, "nest" `name[i][j] = e`, "app")."""
+
+    __slots__ = ("v", "prov", "src", "t", "via")
 
     def __init__(self, v, prov=NOP, src=EMPTY):
-        self.v, self.prov, self.src = v, prov, src
+        self.v, self.prov, self.src, self.t, self.via = v, prov, src, 0, "lit"
 
 
 class Obj:
@@ -266,10 +299,14 @@ class Obj:
 
 
 class Lst:
-    __slots__ = ("items",)
+    """A list (items: list) or a dict with constant keys (items: dict) - one object per evaluation of a literal, shared by
+    every alias.  last_store: time of the last traced subscript store into this object (through whatever path)."""
 
-    def __init__(self):
-        self.items = []
+    __slots__ = ("items", "last_store")
+
+    def __init__(self, items=None):
+        self.items = [] if items is None else items
+        self.last_store = 0
 
 
 class _Ret(Exception):
@@ -290,7 +327,7 @@ class HarnessError(Exception):
 
 
 class Result:
-    __slots__ = ("value", "g_after", "need", "need_supported", "direct", "executed", "root", "ret")
+    __slots__ = ("value", "g_after", "need", "need_supported", "direct", "executed", "root", "ret", "features", "hidden")
 
 
 class Interp:
@@ -307,6 +344,8 @@ class Interp:
             self.G = Val(p.g_init, NOP | {p.g_line}, frozenset({(p.g_line, "data")}))
         self.direct: dict[int, dict[int, str]] = {}
         self.executed: set[int] = set()
+        self.shapes: set[tuple[str, int, int]] = set()  # (feature, read line, store line) of container reads
+        self.hidden: set[int] = set()
         self.steps = 0
         self.depth = 0
         rv = self._call(p.entry, [a_val if a_val is not None else Val(a), Val(b)], (NOP, EMPTY), None)
@@ -317,6 +356,11 @@ class Interp:
         r.direct = self.direct
         r.executed = self.executed
         r.root = next(iter(rv.src))[0]  # root of the dependence graph: the entry's return line
+        # a shape counts when the returned value depends on the read and (as a demanded dependence) on the store
+        r.features = {f for f, rl, sl in self.shapes if rl in r.need_supported and sl in r.need_supported}
+        # store lines whose cell was read through a nested subscript while a LATER store into the same container (made
+        # after the container was nested) exists: certain dependences, demanded; the set only refines the witness key
+        r.hidden = {sl for sl in self.hidden if sl in r.need_supported}
         return r
 
     # ---- helpers ----------------------------------------------------------------------------
@@ -345,6 +389,10 @@ class Interp:
     def _block(self, body, env, ctx):
         for s in body:
             self._stmt(s, env, ctx)
+
+    def _cell(self, val, via):
+        val.t, val.via = self.steps, via
+        return val
 
     def _def(self, val, extra_prov, ctx, line):
         return Val(val.v, val.prov | extra_prov | ctx[0] | {line}, frozenset({(line, "data")}))
@@ -395,21 +443,40 @@ class Interp:
             for x in s.a[1]:
                 val = self._ev(x, env, ctx, ln)
                 self._dep(ln, val.src)
-                lst.items.append(self._def(val, NOP, ctx, ln))
+                lst.items.append(self._cell(self._def(val, NOP, ctx, ln), "lit"))
             env[s.a[0]] = Val(lst, ctx[0] | {ln}, frozenset({(ln, "data")}))
+        elif k == "dnew":
+            dct = Lst({})
+            for key, x in s.a[1]:
+                val = self._ev(x, env, ctx, ln)
+                self._dep(ln, val.src)
+                dct.items[key] = self._cell(self._def(val, NOP, ctx, ln), "lit")
+            env[s.a[0]] = Val(dct, ctx[0] | {ln}, frozenset({(ln, "data")}))
         elif k == "lapp":
             lv = env[s.a[0]]
             val = self._ev(s.a[1], env, ctx, ln)
             self._dep(ln, val.src | lv.src)
             d = self._def(val, lv.prov, ctx, ln)
             # mutation through an untraced C method: documented limitation of the slicer (test_mod_untraced_object)
-            lv.v.items.append(Val(d.v, P(d.prov.full, EMPTY), d.src))
+            lv.v.items.append(self._cell(Val(d.v, P(d.prov.full, EMPTY), d.src), "app"))
         elif k == "lset":
             val = self._ev(s.a[2], env, ctx, ln)
             lv = env[s.a[0]]
             iv = self._ev(s.a[1], env, ctx, ln)
             self._dep(ln, val.src | lv.src | iv.src)
-            lv.v.items[iv.v] = self._def(val, P((lv.prov | iv.prov).full), ctx, ln)
+            lv.v.items[iv.v] = self._cell(self._def(val, P((lv.prov | iv.prov).full), ctx, ln), "var")
+            lv.v.last_store = self.steps
+        elif k == "lset2":
+            val = self._ev(s.a[3], env, ctx, ln)
+            ov = env[s.a[0]]
+            iv = self._ev(s.a[1], env, ctx, ln)
+            ref = ov.v.items[iv.v]
+            jv = self._ev(s.a[2], env, ctx, ln)
+            self._dep(ln, val.src | ov.src | iv.src | ref.src | jv.src)
+            # the path to the container (outer variable, its cell, both indices) is prepared for a store: not searched for
+            path = ov.prov | iv.prov | ref.prov | jv.prov
+            ref.v.items[jv.v] = self._cell(self._def(val, P(path.full), ctx, ln), "nest")
+            ref.v.last_store = self.steps
         elif k == "if":
             c = self._ev(s.a[0], env, ctx, ln)
             self._dep(ln, c.src)
@@ -487,7 +554,27 @@ class Interp:
             lv = env[e.a[0]]
             iv = self._ev(e.a[1], env, ctx, ln)
             x = lv.v.items[iv.v]
+            if x.via == "nest" and x.src:
+                self.shapes.add(("alias-subscript-read-after-nested-store", ln, next(iter(x.src))[0]))
             return Val(x.v, lv.prov | iv.prov | x.prov, lv.src | iv.src | x.src)
+        if k == "idx2":
+            ov = env[e.a[0]]
+            iv = self._ev(e.a[1], env, ctx, ln)
+            ref = ov.v.items[iv.v]  # the cell of the outer container: a reference to the inner one
+            jv = self._ev(e.a[2], env, ctx, ln)
+            x = ref.v.items[jv.v]
+            sl = next(iter(x.src))[0] if x.src else None
+            if sl is not None and x.via != "app":
+                if x.t < ref.t:
+                    self.shapes.add(("nested-subscript-read-of-store-before-nesting", ln, sl))
+                elif x.via == "var":
+                    self.shapes.add(("nested-subscript-read-after-alias-store", ln, sl))
+                elif x.via == "nest":
+                    self.shapes.add(("nested-subscript-read-after-nested-store", ln, sl))
+                if x.t > ref.t and x.t < ref.v.last_store:
+                    self.hidden.add(sl)
+                    self.shapes.add(("nested-subscript-read-of-store-followed-by-store-to-same-container", ln, sl))
+            return Val(x.v, ov.prov | iv.prov | ref.prov | jv.prov | x.prov, ov.src | iv.src | ref.src | jv.src | x.src)
         if k == "call":
             args = [self._ev(x, env, ctx, ln) for x in e.a[1]]
             return self._call(self.p.funcs[e.a[0]], args, ctx, ln)
@@ -543,7 +630,7 @@ class _Gen:
         self.rng = rng
         self.helpers: list[Func] = []
         self.methods: list[Func] = []
-        self.nint = self.nobj = self.nlst = self.nctr = self.nfor = 0
+        self.nint = self.nobj = self.nlst = self.nctr = self.nfor = self.nnst = 0
         self.cur = None  # "entry" | "helper" | "method"
         self.allow_g_write = False
         self.callable_helpers: list[Func] = []
@@ -568,6 +655,8 @@ class _Gen:
             if r.random() < 0.4:
                 return Idx(name, C(r.choice([r.randrange(n), -1])))
             return Idx(name, Bin("%", self.int_expr(env, depth + 1), C(n)))
+        if roll < 0.64 and env["nst"]:
+            return self.nested_read(env, depth)
         if roll < 0.68 and self.callable_helpers and self.budget > 0:
             self.budget -= 1
             h = r.choice(self.callable_helpers)
@@ -583,6 +672,23 @@ class _Gen:
         if op == "*":
             return Bin("*", left, C(r.randint(2, 3))) if r.random() < 0.7 else Bin("*", left, self.small(env))
         return Bin(op, left, self.int_expr(env, depth + 1))
+
+    def nested_read(self, env, depth=1, name=None, slot=None):
+        """`n1[0][j]` / `d1['k'][j]` (or, now and then, an int slot of the outer container)."""
+        r = self.rng
+        name = name or r.choice(sorted(env["nst"]))
+        info = env["nst"][name]
+        if slot is None and info["ints"] and r.random() < 0.15:
+            return Idx(name, C(r.choice(info["ints"])))
+        slot = slot if slot is not None else r.choice(sorted(info["slots"], key=repr))
+        n = info["slots"][slot]
+        return Idx2(name, C(slot), self.elem_index(env, n, depth))
+
+    def elem_index(self, env, n, depth=1):
+        r = self.rng
+        if r.random() < 0.6:
+            return C(r.choice([r.randrange(n), r.randrange(n), -1]))
+        return Bin("%", self.int_expr(env, depth + 1), C(n))
 
     def small(self, env):
         pool = sorted(env["int"])
@@ -616,10 +722,72 @@ class _Gen:
 
     @staticmethod
     def scope(env):
-        return {"int": set(env["int"]), "obj": set(env["obj"]), "lst": dict(env["lst"])}
+        return {"int": set(env["int"]), "obj": set(env["obj"]), "lst": dict(env["lst"]),
+                "nst": {k: {"slots": dict(v["slots"]), "ints": list(v["ints"])} for k, v in env["nst"].items()}}
+
+    # ---- nested containers and aliases ---------------------------------------------------------
+    def fresh_lst(self):
+        self.nlst += 1
+        return f"l{self.nlst}"
+
+    def nest_stmt(self, env, must=None):
+        """`n1 = [l1, e, l2]` or `d1 = {'k': l1, 'j': e}`: list variables become elements of another container."""
+        r = self.rng
+        pool = sorted(env["lst"])
+        picks = r.sample(pool, min(len(pool), r.randint(1, 2)))
+        if must is not None and must not in picks:
+            picks[0] = must
+        self.nnst += 1
+        elems = [("lst", p) for p in picks] + [("int", None)] * r.randint(0, 1)
+        r.shuffle(elems)
+        slots, ints, items = {}, [], []
+        as_dict = r.random() < 0.4
+        keys = ["k", "j", "u"] if as_dict else [0, 1, 2]
+        for key, (kind, p) in zip(keys, elems):
+            if kind == "lst":
+                slots[key] = env["lst"][p]
+                items.append((key, V(p)))
+            else:
+                ints.append(key)
+                items.append((key, self.int_expr(env, 1)))
+        name = f"d{self.nnst}" if as_dict else f"n{self.nnst}"
+        env["nst"][name] = {"slots": slots, "ints": ints}
+        return DNew(name, *items) if as_dict else LNew(name, *[x for _, x in items])
+
+    def nested_stmt(self, env):
+        """One statement around nested containers: nest, alias, store through either path, replace an inner container."""
+        r = self.rng
+        roll = r.random()
+        if not env["nst"] or roll < 0.22:
+            return [self.nest_stmt(env)]
+        name = r.choice(sorted(env["nst"]))
+        info = env["nst"][name]
+        slot = r.choice(sorted(info["slots"], key=repr))
+        n = info["slots"][slot]
+        if roll < 0.40:  # alias through a variable or through the outer container
+            new = self.fresh_lst()
+            if r.random() < 0.5:
+                src = r.choice(sorted(env["lst"]))
+                s = Assign(new, V(src))
+                env["lst"][new] = env["lst"][src]
+            else:
+                s = Assign(new, Idx(name, C(slot)))
+                env["lst"][new] = n
+            return [s]
+        if roll < 0.62:  # store through the nested path
+            return [LSet2(name, C(slot), self.elem_index(env, n), self.int_expr(env, 1))]
+        if roll < 0.90:  # store through a variable (most of them alias a nested container)
+            v = r.choice(sorted(env["lst"]))
+            return [LSet(v, self.elem_index(env, env["lst"][v]), self.int_expr(env, 1))]
+        cands = sorted(v for v in env["lst"] if env["lst"][v] >= n)  # replace the inner container (never a shorter one)
+        if cands:
+            return [LSet(name, C(slot), V(r.choice(cands)))]
+        return [LSet2(name, C(slot), self.elem_index(env, n), self.int_expr(env, 1))]
 
     def stmt(self, env, depth, in_loop):  # noqa: C901
         r = self.rng
+        if env["lst"] and self.cur != "method" and r.random() < 0.12:
+            return self.nested_stmt(env)
         roll = r.random()
         if roll < 0.24:
             t = self.target_int(env)
@@ -718,7 +886,7 @@ class _Gen:
         self.allow_g_write = r.random() < 0.45
         self.callable_helpers = list(self.helpers)  # only earlier helpers: no recursion
         self.budget = 1
-        env = {"int": {"p", "q"}, "obj": set(), "lst": {}}
+        env = {"int": {"p", "q"}, "obj": set(), "lst": {}, "nst": {}}
         body = []
         if r.random() < 0.7:
             body.append(Assign("t", self.int_expr(env)))
@@ -738,7 +906,7 @@ class _Gen:
         self.allow_g_write = False
         self.callable_helpers = []
         self.budget = 0
-        env = {"int": {"d"}, "obj": {"self"}, "lst": {}}
+        env = {"int": {"d"}, "obj": {"self"}, "lst": {}, "nst": {}}
         body = self.block(env, r.randint(1, 2), 2, None)
         if not any(s.k in ("aset", "aaug") for s in body) and r.random() < 0.7:
             body.append(AAug("self", r.choice(FIELDS), "+", V("d")))
@@ -751,18 +919,43 @@ class _Gen:
         self.allow_g_write = True
         self.callable_helpers = list(self.helpers)
         self.budget = 4
-        env = {"int": {"a", "b"}, "obj": set(), "lst": {}}
+        env = {"int": {"a", "b"}, "obj": set(), "lst": {}, "nst": {}}
         body = []
+        idiom = r.random() < 0.4  # nested container + store through an alias (before / after nesting) + nested read
         if r.random() < 0.8:
             self.nobj += 1
             body.append(New(f"o{self.nobj}", self.int_expr(env, 1), self.int_expr(env, 1)))
             env["obj"].add(f"o{self.nobj}")
-        if r.random() < 0.7:
+        if r.random() < 0.7 or idiom:
             self.nlst += 1
             k = r.randint(2, 3)
             body.append(LNew(f"l{self.nlst}", *[self.int_expr(env, 1) for _ in range(k)]))
             env["lst"][f"l{self.nlst}"] = k
+        hot = None
+        if idiom:
+            inner = f"l{self.nlst}"
+            k = env["lst"][inner]
+            if r.random() < 0.4:  # a store before nesting
+                body.append(LSet(inner, self.elem_index(env, k), self.int_expr(env, 1)))
+            if r.random() < 0.4:  # a sibling container
+                other = self.fresh_lst()
+                body.append(LNew(other, *[self.int_expr(env, 1) for _ in range(2)]))
+                env["lst"][other] = 2
+            nest = self.nest_stmt(env, must=inner)
+            body.append(nest)
+            outer = nest.a[0]
+            hot = (outer, next(key for key, n in env["nst"][outer]["slots"].items() if n == k), inner, k)
         body.extend(self.block(env, r.randint(3, 6), 0, None))
+        if hot is not None and r.random() < 0.75:  # the store through the alias, after nesting
+            outer, slot, inner, k = hot
+            j = r.randrange(k)
+            st = LSet(inner, C(j), self.int_expr(env, 1))
+            if r.random() < 0.3:
+                st = If(self.cond(env), [st], [LSet2(outer, C(slot), C(j), self.int_expr(env, 1))] if r.random() < 0.5 else [])
+            body.append(st)
+            if r.random() < 0.2:  # a later store to a sibling cell of the same container
+                body.append(LSet(inner, C((j + 1) % k), self.int_expr(env, 1)))
+            hot = (outer, slot, inner, j)
         # sink: combine several live things so that the returned value has a rich dependence set
         terms = [V(n) for n in r.sample(sorted(env["int"]), min(len(env["int"]), r.randint(1, 3)))]
         if r.random() < 0.6:
@@ -773,6 +966,11 @@ class _Gen:
         for name in sorted(env["lst"]):
             if r.random() < 0.6:
                 terms.append(Idx(name, C(r.choice([0, -1, env["lst"][name] - 1]))))
+        for name in sorted(env["nst"]):
+            if hot is not None and name == hot[0]:
+                terms.append(Idx2(name, C(hot[1]), C(hot[3])))
+            elif r.random() < 0.7:
+                terms.append(self.nested_read(env, 1, name=name))
         e = terms[0]
         for t in terms[1:]:
             e = Bin(r.choice(["+", "-"]), e, t)
